@@ -71,6 +71,18 @@ CLAIMED = {
    design="5/C09",
    note="Trusted: ColorChoice.tla (the statement, word for word; probe conventions from no-color.org / bixense clicolors), TLC, openpty. Non-Windows platform. Exhaustive in both tiers.",
    technique="TLA+ spec (ColorChoice) + TLC: theorems over the full configuration product; all TLC-enumerated configurations replayed into the real decision procedure"),
+ "C11": dict(
+   level="model_checking",
+   text="git's colour syntax is specified on code-point sequences (GitStyle.tla: lexer, word machine, errors naming the original word, printing). TLC checks the print/parse round trip for every expressible style of a bounded domain, and enumerates every description of up to 2 (thorough: 3) words over a 61-word vocabulary (attributes, negations, colours, boundary numbers, hex forms, near misses, non-ASCII) in several whitespace spellings with the expected result; these are replayed into anstyle_git::parse. Seeded grammar/mutation/near-miss/Unicode descriptions are recorded and every call is validated by Trace_GitStyle.",
+   design="5/C11",
+   note="Trusted: GitStyle.tla, TLC. ASCII case folding only (U+212A, U+0130 outside the domain); #rgb = per-digit values as the crate's pinned tests define; leading zeros accepted.",
+   technique="TLA+ spec (GitStyle) + TLC: round-trip model checking, exhaustive vocabulary enumeration replayed into the parser, recorded calls validated by TLC"),
+ "C12": dict(
+   level="model_checking",
+   text="LsColors.tla specifies the all-or-nothing split into 0-255 numbers and the left fold of SGR codes with look-ahead for 38/48/58. TLC enumerates every list of up to 2 (thorough: 3) codes over 0..110, 200, 255 with the expected style, replayed into anstyle_ls::parse; seeded lists of up to 40 codes with leading zeros, extended colours and malformed fields are recorded and every call is validated by Trace_LsColors.",
+   design="5/C12",
+   note="Trusted: LsColors.tla, TLC. Truncated/malformed extended colours are outside the statement (any non-panicking result accepted).",
+   technique="TLA+ spec (LsColors) + TLC: exhaustive code-list enumeration replayed into the parser, recorded calls validated by TLC"),
 }
 PENDING_REASON = "check not built yet in this revision of /verif (planned with the TLA+ specification, see DESIGN.md section 5); not claimed until its quick command exists"
 
